@@ -83,8 +83,26 @@ pub fn main(rest: &[String]) -> i32 {
                 continue;
             }
         };
+        // `"follow": true` continues the game: the root is the previous root with the previous best move played
+        let mut last: Option<(Game, Option<Move>)> = None;
         for (qi, s) in job["searches"].as_array().unwrap().iter().enumerate() {
-            let mut game = proj::game_from_fields(&s["pos"]);
+            let mut game = if s["follow"].as_bool().unwrap_or(false) {
+                match last.take() {
+                    Some((mut g, Some(mv))) => {
+                        if !g.moves().iter().any(|m| *m == mv) {
+                            break; // an illegal best move is reported by the validation of the previous event
+                        }
+                        g.make_move(mv);
+                        if g.moves().is_empty() {
+                            break;
+                        }
+                        g
+                    }
+                    _ => break,
+                }
+            } else {
+                proj::game_from_fields(&s["pos"])
+            };
             if let Some(ms) = s["moves"].as_array() {
                 for m in ms {
                     let mv = proj::find_move(&game, m.as_i64().unwrap()).expect("job move not legal");
@@ -150,6 +168,7 @@ pub fn main(rest: &[String]) -> i32 {
             ev.insert("gen".into(), json!(ps.tt.generation));
             let after = proj::full(&game);
             ev.insert("untouched".into(), json!(before == after && hist_before == game.history.len()));
+            last = Some((game.clone(), res.as_ref().ok().copied()));
             match res {
                 Ok(mv) => {
                     ev.insert("out".into(), json!("move"));
